@@ -240,6 +240,10 @@ func checkC03(tier string, seed int64) int {
 		"s := []any{0}\ns[0] = s\npanic(s)\n",
 		"type N struct {\n\tnext *N\n\tkids []any\n}\nn := &N{}\nn.next = n\nn.kids = append(n.kids, n)\nprintln(n)\npanic(n)\n",
 		"import \"fmt\"\ns := []any{0}\nt := []any{s}\ns[0] = t\nu := s == nil\nfmt.Println(u, len(s), s)\n",
+		// names of every kind for the odd Call / Func uses of the harness: a function, a variable, a function-typed
+		// variable that was never assigned, a type
+		"var cb func() int\nvar x = 3\ntype T struct {\n\tv int\n}\nfunc f() int {\n\treturn x\n}\n",
+		"var cb func(int) (int, int)\nx := []int{1}\nfunc f(a int, b ...int) (int, int) {\n\treturn a, len(b)\n}\n",
 	)
 	cagg := NewAgg()
 	if onlyNesting {
